@@ -31,6 +31,16 @@ Proof.
 Qed.
 Print Assumptions C08_serial_fail_once.
 
+(* A refused / failed / timed-out connect of Open(): the transport reports Closed (no handle is left behind: the F21
+   position) and raises on_faulted - unless the owner had closed the sink before the connect ended. *)
+Theorem C08_serial_open_fail : forall ls s e0,
+  run init ls = Some (s, e0) -> opn s = Some OConn ->
+  exists s' e, step s (LOConn false) = Some (s', e) /\ reported s' = Closed /\ sk s' = SNone /\ opn s' = None /    posts e = [] /\ (nfaults e = match cst s with Closed => 0 | _ => 1 end).
+Proof.
+  intros ls s e0 R O. apply open_fail; [exact (run_inv ls init s e0 inv_init R) | assumption].
+Qed.
+Print Assumptions C08_serial_open_fail.
+
 (* The pure time-out path: the Timeout is deliverable at every blocking stage, and when the re-open succeeds the call
    gets exactly one TimeoutError, _processing is cleared, no fault is raised and the transport is connected again. *)
 Theorem C08_serial_timeout_reopen : forall s c stg,
@@ -227,6 +237,16 @@ Proof.
   split; [assumption|]. apply usable; assumption.
 Qed.
 Print Assumptions C08_mux_open_means_usable_partial.
+
+(* ... and, for the same histories, on_faulted is raised at most once and the transport stays closed afterwards
+   (refuted in general by the history above: the second nfaults = 1). *)
+Theorem C08_mux_fault_once_partial : forall t0 ls s e,
+  run_nr (Mux.init t0) ls = Some (s, e) ->
+  Mux.nfaults e = 0 \/ (Mux.nfaults e = 1 /\ Mux.cst s = Mux.Closed).
+Proof.
+  intros t0 ls s e R. destruct (run_nr_faults ls _ _ _ R) as (_ & H). exact H.
+Qed.
+Print Assumptions C08_mux_fault_once_partial.
 
 (* non-vacuity: two calls, one written and one still queued behind a failing write, are both failed once *)
 Example C08_mux_example :
